@@ -49,9 +49,13 @@ pub fn prefix_is_not_amqp(value: &Bytes) -> (r: bool)
     ensures r == !(value@[0] == 0x41 && value@[1] == 0x4d && value@[2] == 0x51 && value@[3] == 0x50),
 { unimplemented!() }
 pub const PROTOCOL_HEADER_PREFIX: [u8; 4] = [0x41, 0x4d, 0x51, 0x50];
-pub const MAJOR: u8 = 1;
-pub const MINOR: u8 = 0;
-pub const REVISION: u8 = 0;
+//@@ type file=fe2o3-amqp-types/src/definitions/constant_def.rs kind=const name=MAJOR
+//@@ end
+//@@ type file=fe2o3-amqp-types/src/definitions/constant_def.rs kind=const name=MINOR
+//@@ end
+//@@ type file=fe2o3-amqp-types/src/definitions/constant_def.rs kind=const name=REVISION
+//@@ end
+proof fn spec_version_constants() ensures MAJOR == 1 && MINOR == 0 && REVISION == 0 {}      // [C06.constants.protocol-version] [C12.constants.protocol-version]
 
 //@@ type file=fe2o3-amqp/src/transport/protocol_header.rs kind=enum name=ProtocolId keeprepr clone
 //@@ end
